@@ -80,6 +80,15 @@ func runBatch(texts map[string]string, order []string, sched *maporder.Schedule,
 	return runBatchOp(texts, order, sched, opts, world.Op{Op: "process"})
 }
 
+// runBatchOps runs the given load operations (parse / read from the given
+// simulated disk) on a fresh Modules, then the final operation.
+func runBatchOps(texts, disk map[string]string, loads []world.Op, sched *maporder.Schedule, opts world.Options, final world.Op) *batchOutcome {
+	spec := &world.Spec{Texts: texts, Disk: disk, Sched: sched, Options: opts}
+	spec.Ops = append(spec.Ops, loads...)
+	spec.Ops = append(spec.Ops, final)
+	return outcomeOf(world.Exec(spec))
+}
+
 // runBatchOp is runBatch with another final operation (process or getmodule).
 func runBatchOp(texts map[string]string, order []string, sched *maporder.Schedule, opts world.Options, final world.Op) *batchOutcome {
 	spec := &world.Spec{Texts: texts, Sched: sched, Options: opts}
